@@ -48,6 +48,10 @@ def extra_cases(tier):
         {'family': 'ugrid', 'mesh': 'M7', 'supplied': ['edge_node', 'face_edge'], 'start_index': 1, 'fill': 'fillattr'},
         {'family': 'ugrid', 'mesh': 'M4', 'supplied': ['edge_node'], 'fill': 'nan', 'face_coords': True},
     ]
+    out += [{'family': 'ugrid', 'mesh': 'M7', 'bowtie': 5}, {'family': 'ugrid', 'mesh': 'M4', 'bowtie': 0, 'start_index': 1, 'fill': 'fillattr'},
+            {'family': 'ugrid', 'mesh': 'M8', 'bowtie': 1, 'face_coords': True}, {'family': 'ugrid', 'mesh': 'M10'},
+            {'family': 'ugrid', 'mesh': 'M4', 'start_index': 1, 'fill': 'fillattr', 'fill_value': 0},
+            {'family': 'cf2d', 'ny': 3, 'nx': 3, 'geometry': 'skew', 'holes': 'corner', 'bowtie': [1, 1]}]
     out += [{**spec, 'io': 'reopen'} for spec in reopened]
     out += [{**spec, 'io': 'dask'} for spec in reopened[:4]]
     if tier == 'thorough':
